@@ -1,6 +1,7 @@
 """C11 -- line numbers in parse trees and errors are the true source lines."""
 from __future__ import annotations
 
+import re
 import copy
 import os
 import shutil
@@ -81,6 +82,8 @@ def hist_class(prog, reused, after_error=False):
         h += "+after_error"
     if prog.get("nl") == "\r\n":
         h += "+crlf"
+    if prog.get("nl") == "\r":
+        h += "+cr"
     return h
 
 
@@ -225,7 +228,7 @@ def lay_out(draw, prog):
         for a in c["args"]:
             a["g"] = [draw(RD.gaps(6)), draw(RD.gaps(1)), draw(RD.gaps(1)), draw(RD.gaps(2))]
             lay_value(a["value"])
-    prog["nl"] = draw(st.sampled_from(["\n", "\n", "\r\n"]))
+    prog["nl"] = draw(st.sampled_from(["\n", "\n", "\n", "\r\n", "\r\n", "\r"]))
     prog["head"] = draw(RD.gaps(4))
     prog["tail"] = draw(RD.gaps(3))
     return prog
@@ -422,7 +425,7 @@ def check_fault(case, rec):
     prog = case["prog"]
     text, lm = RD.render(prog)
     classes, loc, use_wd = case["classes"], tuple(case["loc"]), case["working_dir"]
-    src_lines = text.replace("\r\n", "\n").split("\n")
+    src_lines = re.split(r"\r\n|\r|\n", text)
     if loc[0] == "cmd":
         span = (lm[("cmd", loc[1])], lm[("cmd", loc[1])])
     else:
